@@ -237,6 +237,14 @@ def run_core_chunk(path):
     lines = path + ".lines"
     with open(lines, "w") as f:
         p = subprocess.run([os.path.join(BIN, "core_diff"), "run", path], stdout=f, stderr=subprocess.PIPE, env=ENV, text=True)
+    if p.returncode == 3 and "HANG " in p.stderr:
+        # an engine operation never returned: run the lines produced so far through the driver, then report
+        where = p.stderr[p.stderr.index("HANG ") + 5:].strip().splitlines()[0]
+        with open(lines) as f:
+            q = subprocess.run([DRIVER, "core"], stdin=f, stdout=subprocess.PIPE, stderr=subprocess.STDOUT, env=ENV, text=True)
+        return lines, q.stdout + f"MON C17 {where} :: the operation never returned (it spins or blocks while holding the cache's locks: every other caller of this cache would wait behind it for ever)\n" \
+                               + f"MON C16 {where} :: the operation never returned\n" \
+                               + f"BAD {where} the operation never returned; the rest of this chunk of episodes was not run\n"
     if p.returncode != 0:
         return lines, f"BAD harness exit {p.returncode}: {p.stderr[-300:]}\n"
     with open(lines) as f:
@@ -813,13 +821,37 @@ def run_hammer_stream(prop, stream, tier, seed, workdir, scale=1):
     acc = {"steps": 0, "events": {}, "configs": set(), "by_flavour_policy": {}, "nontrivial": set(), "samples": []}
     verdicts = []
     for r in range(reps * scale):
-        p = subprocess.run([os.path.join(BIN, "hammer"), str(seed + r), str(threads), str(rounds)], stdout=subprocess.PIPE,
-                           stderr=subprocess.PIPE, env=ENV, text=True, timeout=600)
+        try:
+            p = subprocess.run([os.path.join(BIN, "hammer"), str(seed + r), str(threads), str(rounds)], stdout=subprocess.PIPE,
+                               stderr=subprocess.PIPE, env=ENV, text=True, timeout=900)
+        except subprocess.TimeoutExpired:
+            verdicts.append({"kind": "MON", "id": "C17", "episode": 0, "step": 0, "raw": [f"# hammer {seed + r} {threads} {rounds}"],
+                             "text": f"MON C17 :: free-running threads calling cached functions and invalidating them did not finish within 900 s (deadlock or livelock)"})
+            verdicts.append({"kind": "BAD", "id": None, "episode": 0, "step": 0, "text": "hammer did not finish within 900 s"})
+            continue
         if p.returncode != 0:
             verdicts.append({"kind": "BAD", "id": None, "episode": 0, "step": 0, "text": f"hammer exited {p.returncode}: {p.stderr[-300:]}"})
             continue
         for line in p.stdout.splitlines():
             f = line.split("|")
+            if f[0] == "HS":
+                calls, execs = int(f[3]), int(f[4])
+                acc["steps"] += calls
+                acc["events"]["parallel-calls-racing-with-invalidation"] = acc["events"].get("parallel-calls-racing-with-invalidation", 0) + calls
+                acc["nontrivial"].add(hash((r, "HS", f[1])))
+                rp = [f"# hammer {seed + r} {threads} {rounds}", line]
+                if f[5] == "-":
+                    verdicts.append({"kind": "MON", "id": "C15", "episode": 0, "step": 0, "raw": rp,
+                                     "text": f"MON C15 :: no statistics registered for {f[2]} after {calls} calls"})
+                else:
+                    h, m_ = (int(x) for x in f[5].split(","))
+                    if h + m_ != calls:
+                        verdicts.append({"kind": "MON", "id": "C15", "episode": 0, "step": 0, "raw": rp,
+                                         "text": f"MON C15 :: {calls} completed calls of {f[2]} racing with invalidations, but hits+misses = {h}+{m_} = {h + m_} (free-running threads)"})
+                    elif m_ != execs:
+                        verdicts.append({"kind": "MON", "id": "C15", "episode": 0, "step": 0, "raw": rp,
+                                         "text": f"MON C15 :: {f[2]}: {m_} misses counted but the body ran {execs} times among {calls} calls racing with invalidations"})
+                continue
             if f[0] != "H":
                 continue
             calls, execs, wrong = int(f[3]), int(f[4]), int(f[5])
